@@ -3,4 +3,4 @@ From Coq Require Import ZArith.
 Require Import ExtrOcamlBasic.
 Extraction Language OCaml.
 Extraction "model.ml" extraction_anchor run_history exchange_cache exchange_plain init_cstate clean_response ttl
-  stored_ok_b refused_b all_or_nothing_b clean_source_b source_of.
+  stored_ok_b refused_b miss_sends_b sent_has_miss_b full_hit clean_source_b source_of.
